@@ -82,6 +82,9 @@ pub enum Which {
     C07,
     /// fragment stage of C14: operands handed in as `expr` fragments of a `macro_rules!` wrapper
     C14,
+    /// chain stage of C03: `~` in front of every operator spelling, several branches; the reference is
+    /// evaluated step by step across the branches and marks the step boundaries
+    C03,
 }
 
 /// closing mode of the forced wrapper (C02): 0 explicit `<<<`, 1 implicit at the end of a step, 2 implicit at the end of the branch
@@ -89,24 +92,27 @@ fn gen_prog(rng: &mut TestRng, i: usize, which: Which) -> ChainProg {
     let mac = match which {
         Which::C19 => ["join", "try_join", "join_async", "try_join_async"][i % 4],
         Which::C07 => ["join_spawn", "try_join_spawn", "spawn", "try_spawn", "join_async_spawn", "try_join_async_spawn", "async_spawn", "try_async_spawn"][i % 8],
+        // the non-try macros (the generator places `~` only there: a failing try step ends the evaluation)
+        Which::C03 => ["join", "join_spawn", "join", "spawn", "join_async", "join", "join_async_spawn", "async_spawn"][i % 8],
         _ => MACROS[i % 12],
     };
     let kind = macro_kind(mac);
     let real_ok = |c: Comb| matches!(c, Comb::Map | Comb::AndThen | Comb::Filter | Comb::Dot | Comb::Then | Comb::OrElse | Comb::MapErr | Comb::Collect | Comb::Chain | Comb::FilterMap | Comb::Enumerate | Comb::Flatten | Comb::Fold | Comb::TryFold | Comb::Zip | Comb::Unzip | Comb::Inspect);
     let forced_comb = match which {
-        Which::C01 | Which::C10 | Which::C14 => Some(SPELLINGS[i % 22].1),
+        Which::C01 | Which::C10 | Which::C14 | Which::C03 => Some(SPELLINGS[i % 22].1),
         Which::C02 => Some(WRAPPERS[(i / 3) % 10]),
         _ => None,
     };
     let wrapper_real_ok = |c: Comb| matches!(c, Comb::Map | Comb::AndThen | Comb::Filter | Comb::Inspect | Comb::FilterMap | Comb::OrElse | Comb::MapErr);
-    let can_real = matches!(which, Which::C01 | Which::C02) && forced_comb.map(|c| if which == Which::C02 { wrapper_real_ok(c) } else { real_ok(c) }).unwrap_or(true);
+    let can_real = matches!(which, Which::C01 | Which::C02 | Which::C03) && forced_comb.map(|c| if which == Which::C02 { wrapper_real_ok(c) } else { real_ok(c) }).unwrap_or(true);
     // async macros: half of the programs run over real futures / streams, half over sync chains closed with `-> ready`
-    let fam = if kind.is_async { if can_real && (i / 12) % 2 == 1 { Family::AsyncReal } else { Family::AsyncClosed } } else { Family::Sync };
+    // (C03: always real futures where the forced operator has an async edge - only those chains can carry `~`)
+    let fam = if kind.is_async { if can_real && ((i / 12) % 2 == 1 || which == Which::C03) { Family::AsyncReal } else { Family::AsyncClosed } } else { Family::Sync };
     let mut nb = 1 + (rng.random_range(0..6usize) / 3) + if rb(rng, 0.15) { 1 } else { 0 }; // mostly 1-2, sometimes 3
     if which == Which::C19 {
         nb = rng.random_range(1..8usize); // wide joins too
     }
-    if which == Which::C07 {
+    if which == Which::C07 || which == Which::C03 {
         nb = rng.random_range(2..5usize); // at least two branches: something is spawned
     }
     let try_res = rb(rng, 0.5) || kind.is_async;
@@ -121,7 +127,7 @@ fn gen_prog(rng: &mut TestRng, i: usize, which: Which) -> ChainProg {
     // not a block operand)
     let frag_c01 = which == Which::C01 && (i / 22) % 5 == 4;
     let (force, close_mode) = match which {
-        Which::C01 | Which::C10 | Which::C14 => {
+        Which::C01 | Which::C10 | Which::C14 | Which::C03 => {
             let (sp, c) = SPELLINGS[i % 22];
             (Some((c, sp == ">.", false)), 0)
         }
@@ -318,7 +324,7 @@ fn gen_prog(rng: &mut TestRng, i: usize, which: Which) -> ChainProg {
         // `~` at random top-level positions (single chains evaluate the same with or without steps)
         if g.allow_deferred {
             for k in 0..ops.len() {
-                if k > 0 && rb(g.rng, 0.2) {
+                if k > 0 && rb(g.rng, if which == Which::C03 { 0.5 } else { 0.2 }) {
                     // a step of an async macro ends in a future that is awaited; the next step continues
                     // from its output
                     let ok = fam != Family::AsyncReal || matches!(&ops[k - 1].out, Ty::Fut(t) if !matches!(**t, Ty::Fut(_)));
@@ -742,44 +748,75 @@ pub fn case_code(p: &ChainProg, idx: usize) -> CaseCode {
     let concurrent = n >= 2;
     let mut counter = 0usize;
     let mut inner = String::new();
-    for (i, b) in p.branches.iter().enumerate() {
-        // split the top-level operators at `~`
-        let mut steps: Vec<Vec<COp>> = vec![Vec::new()];
-        for op in &b.ops {
-            if op.deferred {
-                steps.push(Vec::new());
-            }
-            steps.last_mut().unwrap().push(op.clone());
-        }
-        let mut prev = format!("({})", b.init_text);
-        let last = steps.len() - 1;
-        for (j, mut ops) in steps.into_iter().enumerate() {
-            let mut defs = Vec::new();
-            hoist_ref(&mut ops, &mut defs, &mut counter);
-            for d in &defs {
-                inner.push_str(&format!("    {}\n", d));
-            }
-            let mut e = prev.clone();
-            for op in &ops {
-                e = ref_apply_pub(e, op, fam);
-            }
-            let name = if j == last { format!("__b{}", i) } else { format!("__b{}_{}", i, j) };
-            if kind.is_async {
-                // the same requirement the task-spawning macros document
-                if kind.is_spawn && n >= 2 {
-                    inner.push_str(&format!("    let {} = require_task({}).await;\n", name, e));
-                } else {
-                    inner.push_str(&format!("    let {} = {}.await;\n", name, e));
+    let step_major = WHICH.with(|w| w.get()) == Which::C03;
+    // split the top-level operators of every branch at `~`
+    let all_steps: Vec<Vec<Vec<COp>>> = p
+        .branches
+        .iter()
+        .map(|b| {
+            let mut steps: Vec<Vec<COp>> = vec![Vec::new()];
+            for op in &b.ops {
+                if op.deferred {
+                    steps.push(Vec::new());
                 }
-            } else if kind.is_spawn && n >= 2 {
-                inner.push_str(&format!("    let {} = require_thread(move || {});\n", name, e));
-            } else {
-                inner.push_str(&format!("    let {} = {};\n", name, e));
+                steps.last_mut().unwrap().push(op.clone());
             }
-            // the next step continues from this value (moved: iterator adaptors take `&mut self`);
-            // in an async macro from a ready future of it
-            prev = if fam == Family::AsyncReal { format!("ready({{ {} }})", name) } else { format!("{{ {} }}", name) };
+            steps
+        })
+        .collect();
+    let mut prevs: Vec<String> = p.branches.iter().map(|b| format!("({})", b.init_text)).collect();
+    let max_steps = all_steps.iter().map(|s| s.len()).max().unwrap_or(1);
+    // order of evaluation of the reference: branch by branch (traces are compared per branch), or - for the
+    // step stage of C03 - step by step across the branches with a mark in front of every step
+    let mut order: Vec<(usize, usize)> = Vec::new();
+    if step_major {
+        for j in 0..max_steps {
+            for i in 0..n {
+                if j < all_steps[i].len() {
+                    order.push((i, j));
+                }
+            }
         }
+    } else {
+        for i in 0..n {
+            for j in 0..all_steps[i].len() {
+                order.push((i, j));
+            }
+        }
+    }
+    let mut marked: Option<usize> = None;
+    for (i, j) in order {
+        if step_major && marked != Some(j) {
+            inner.push_str(&format!("    smark({});\n", j));
+            marked = Some(j);
+        }
+        let mut ops = all_steps[i][j].clone();
+        let last = all_steps[i].len() - 1;
+        let mut defs = Vec::new();
+        hoist_ref(&mut ops, &mut defs, &mut counter);
+        for d in &defs {
+            inner.push_str(&format!("    {}\n", d));
+        }
+        let mut e = prevs[i].clone();
+        for op in &ops {
+            e = ref_apply_pub(e, op, fam);
+        }
+        let name = if j == last { format!("__b{}", i) } else { format!("__b{}_{}", i, j) };
+        if kind.is_async {
+            // the same requirement the task-spawning macros document
+            if kind.is_spawn && n >= 2 {
+                inner.push_str(&format!("    let {} = require_task({}).await;\n", name, e));
+            } else {
+                inner.push_str(&format!("    let {} = {}.await;\n", name, e));
+            }
+        } else if kind.is_spawn && n >= 2 {
+            inner.push_str(&format!("    let {} = require_thread(move || {});\n", name, e));
+        } else {
+            inner.push_str(&format!("    let {} = {};\n", name, e));
+        }
+        // the next step continues from this value (moved: iterator adaptors take `&mut self`);
+        // in an async macro from a ready future of it
+        prevs[i] = if fam == Family::AsyncReal { format!("ready({{ {} }})", name) } else { format!("{{ {} }}", name) };
     }
     let mut r = String::new();
     r.push_str(&format!("#[allow(unused, non_snake_case)]\nfn case_{}_ref() -> String {{\n    use jvrt::chainrt::*;\n", idx));
@@ -978,6 +1015,7 @@ pub fn run(id: &str, tier: &str, seed: u64) -> i32 {
         "C12" => Which::C12,
         "C07" => Which::C07,
         "C14" => Which::C14,
+        "C03" => Which::C03,
         _ => Which::C01,
     };
     WHICH.with(|w| w.set(which));
@@ -999,6 +1037,7 @@ pub fn run(id: &str, tier: &str, seed: u64) -> i32 {
         Which::C17 => "nesting stage: typed chains under all 12 macro names in which 45 % of the callback operands are closures around a nested macro invocation (any of the 12 names, chosen by the type the operand must return; async ones driven by a no-op-waker poll loop), block captures that evaluate a nested invocation, initial values that are macro invocations, and (40 % of the programs) a then / map / and_then handler whose body is a nested invocation over the results; nested bodies are generated by the same chain generator, recursively to depth 3 (wrappers, captures, further nestings inside); a quarter of the programs are 'shadow' programs instead: 2-4 branches with `let` names, locals of the calling function spelled the same, and a handler that mentions them (it must see the caller's locals; the control spells the `let` names differently). Oracle (metamorphic + differential): the outer macro against the documented chain with the same operand text - so every nested invocation is evaluated once inside a macro expansion and once in plain Rust - equal results, callback traces and event multisets. Non-trivial = >= 2 operators and >= 1 callback invoked; classes count nestings by place, inner macro and depth",
         Which::C19 => "bounds stage: typed chains under join! / try_join! / join_async! / try_join_async! with 1-7 branches whose values include `Ns` (holds an Rc: neither Send nor Clone) and `Mv` (move-only) in 60 % of the scalar positions, and half of whose branches borrow - shared (`&Vec` iterated) or mutably (`iter_mut` with a callback that changes the element in place) - from locals of the calling function; 45 % of the programs have a then / map / and_then handler that borrows a local of the caller (async then / and_then: the future it returns holds the borrow); oracle: the macro side compiles whenever the documented chain compiles (a new Clone / Send / 'static requirement is a compile error on the macro side only) and both give the same result and callback traces. Non-trivial = >= 2 operators and >= 1 callback invoked",
         Which::C11 => "chain stage: typed chains in which program i is forced to contain hoistable operator i mod 18 (the 14 expression-operand operators, `^@` / `?^@` twice as often) with block operands on 60 % of the operand positions - both operands of fold / try_fold, operands inside nested wrappers, several per branch and step; oracle: per branch the sequence of capture evaluations equals the written (position) order, each exactly once. Non-trivial = >= 2 captures evaluated",
+        Which::C03 => "chain stage: typed chains with 2-4 branches under the non-try macros (join! / join_spawn! / spawn! / join_async! / join_async_spawn! / async_spawn!; async ones over real futures and streams), program i forced to contain operator spelling i mod 22, `~` in front of half of the top-level operators - so in front of every spelling, the operand-less ones (`|n>`, `^^>`, `=>[]`, `<->`) and wrappers included; the reference side evaluates the documented chains step by step across the branches (step k of every branch, then step k+1) and logs a mark between steps, so every callback invocation, operand evaluation and block capture of the reference has a step number (lazy iterator adaptors: the step in which they are driven). Oracle: when macro and reference agree per branch, the macro's global event sequence must be non-decreasing in those step numbers - no event of step k+1 before the last event of step k, across all branches and threads / tasks. Non-trivial = >= 2 operators, >= 1 callback invoked, >= 2 steps",
         Which::C02 => "programs: typed chains in which program i is forced to contain wrapper operator (i / 3) mod 10 with closing mode i mod 3 (explicit `<<<`, implicit at the end of a step, implicit at the end of the branch), nesting depth <= 3, inner chains of length 0-3 generated goal-directed for the type each wrapper needs (&T -> bool for ?> ?@ ?&!>, T -> Option for ?|> ?|>@ =>, E -> Result for <=, E -> E for !>, &W -> () for ??), inner block captures, operators after `<<<`; all 12 macro names; inputs and oracle as C01 with the reference `.x(|v| v inner...) rest`. Non-trivial = >= 2 operators and >= 1 callback invoked",
     }
     .to_string();
@@ -1009,7 +1048,7 @@ pub fn run(id: &str, tier: &str, seed: u64) -> i32 {
         "futures and streams in the async chains are immediately ready (ready(), stream::iter): pending points are the business of C03 / C09".into(),
     ];
     let known = evid::Known::load();
-    let mut runner = new_runner(seed, match which { Which::C01 => 0xc01, Which::C02 => 0xc02, Which::C10 => 0xc10, Which::C11 => 0xc11, Which::C19 => 0xc19, Which::C17 => 0xc17, Which::C12 => 0xc12, Which::C07 => 0xc07, Which::C14 => 0xc14 }, 1);
+    let mut runner = new_runner(seed, match which { Which::C01 => 0xc01, Which::C02 => 0xc02, Which::C10 => 0xc10, Which::C11 => 0xc11, Which::C19 => 0xc19, Which::C17 => 0xc17, Which::C12 => 0xc12, Which::C07 => 0xc07, Which::C14 => 0xc14, Which::C03 => 0xc03 }, 1);
     let mut progs: Vec<ChainProg> = Vec::new();
     let mut seen = HashSet::new();
     for i in 0..count {
